@@ -327,15 +327,29 @@ int main(int argc, char** argv)
         std::vector<std::string> cands;
         for (auto* v : {&p0, &d1, &wd1}) for (const auto& s2 : *v) if (ok_keys(s2)) cands.push_back(s2);
         if (big) {
-            // depth 2: a depth-1 combinator expression combined with a singly-wrapped atom, both operand orders
+            // depth 2: a depth-1 binary combinator expression over the quick atoms, combined with a wrapped leaf on key C /
+            // older(1) / after(1) / sha256, both operand orders (keys distinct, no first-use-order reduction here)
+            std::vector<std::string> tiny_c;
+            for (const std::string& a : {std::string("pk_k(C)"), std::string("older(1)"), std::string("after(1)"), "sha256(" + K.h1hex + ")"}) {
+                tiny_c.push_back(a);
+                for (char w1 : W) {
+                    std::string x = Gen::wrap(std::string(1, w1), a);
+                    tiny_c.push_back(x);
+                    if (w1 == 'c') for (char w2 : W) tiny_c.push_back(Gen::wrap(std::string(1, w2), x));
+                }
+            }
+            std::vector<std::string> tiny = filter_par(tiny_c);
+            auto quick_atoms_only = [&](const std::string& e) { return e.find("4194305") == std::string::npos && e.find("500000001") == std::string::npos && e.find("hash160") == std::string::npos && e.find(",C,") == std::string::npos && e.find("(C)") == std::string::npos && e.find("andor") == std::string::npos && e.find("thresh") == std::string::npos; };
             std::vector<std::string> c2;
             for (const char* f : {"and_v", "and_b", "or_b", "or_c", "or_d", "or_i"})
-                for (const auto& x : d1) for (const auto& y : p0s)
-                    for (int order = 0; order < 2; order++) {
-                        std::string s2 = std::string(f) + "(" + (order ? y : x) + "," + (order ? x : y) + ")";
-                        if (ok_keys(s2)) c2.push_back(s2);
-                    }
+                for (const auto& x : d1) {
+                    if (!quick_atoms_only(x) || !ok_keys(x)) continue;
+                    for (const auto& y : tiny)
+                        for (int order = 0; order < 2; order++) c2.push_back(std::string(f) + "(" + (order ? y : x) + "," + (order ? x : y) + ")");
+                }
             std::vector<std::string> d2 = filter_par(c2);
+            gen_stats[tag + "_tiny"] = tiny.size();
+            gen_stats[tag + "_d2_candidates"] = c2.size();
             gen_stats[tag + "_d2"] = d2.size();
             for (const auto& s2 : d2) cands.push_back(s2);
         }
